@@ -201,6 +201,10 @@ T_C15 = T("C15", "outcome", "sink_prefix", "failure_reported", "failure_reported
 T_C18 = T("C18", "read_le", "read_progress", "frame_eq_writer", "frameOf_eq_writer", "output_eq_writer", "frame_valid", "frame_valid_info", "eof_last",
           "after_eof_done", "eof_only_when_flushed", "done_stays_done", "reaches_eof", "reaches_eof_frame", "source_error_passed", "error_no_bytes",
           "source_error_surfaces", "read_zero")
+T_C07 = T("C07", "pos_monotone_read", "pos_monotone_writeTo", "source_unchanged_read", "read_le", "bounded_new", "bounded_read", "bounded_writeTo", "bounded_reset",
+          "bad_magic_read", "bad_magic_writeTo", "skippable_transparent", "skippable_alone")
+T_C12 = T("C12", "c12", kind="full under the layout Go guarantees, len(dst) < 2^63, and no dictionary or &dst >= 65536")
+T_C20 = T("C20", "flags_effect", "flags_effect_rest", "roundtrip")
 T_C09 = T("C09", "idx_valid", "c09_writer", "c09_writer_fast", "c09_clean") + T("C09full", "hcCorrect", "c09_writer_all", "c09_clean_all", ns="C09")
 T_C19 = T("C19", "c19_accept_iff", "c19_bad_checksum", "c19_bad_block_size", "c19_size", "c19_bad_magic", "c19_spec", "c19_reader_size")
 
@@ -295,12 +299,12 @@ SCHED = {"VERIF_SCHED": "1"}
 PROPS = {
     "C08": dict(runs=[FW("conc", judge=j_c08, env=SCHED), FR("frmut", judge=j_c08, env={"VERIF_SCHED": "2"}), FW("fwfail", judge=j_c08, env={"VERIF_SCHED": "3"})],
                 extra=[x_c08_race], theorems=T_C08),
-    "C20": dict(runs=[], extra=[x_c20], theorems=[],
+    "C20": dict(runs=[], extra=[x_c20], theorems=T_C20 + T("C02", "c02_roundtrip"),
                 rule="each case = (flag set, generated file, mode, file or stdin/stdout); every case is non-trivial; distinct = distinct case description"),
     "C02": dict(runs=[FW("fw", judge=j_c02w), FR("fr", judge=j_c02r)], theorems=T("C02", "c02_roundtrip", "c02_roundtrip_read", "c02_roundtrip_read_consumed", "c02_read_no_error", "written_lenient") + T("C09full", "c09_writer_all", ns="C09")),
     "C05": dict(runs=[FR("frmut", judge=j_c05), FR("fr", judge=j_c05)], theorems=T_C05),
     "C06": dict(runs=[FR("frtrunc", judge=j_c06)], theorems=T_C06),
-    "C07": dict(runs=[FR("frhost", judge=j_c07), FR("frmut", judge=j_c07)], theorems=[]),
+    "C07": dict(runs=[FR("frhost", judge=j_c07), FR("frmut", judge=j_c07)], theorems=T_C07 + T("C19", "c19_bad_magic") + T("C08", "R.progress", "R.terminates", "R.noleak")),
     "C09": dict(runs=[FW("fw", judge=j_c09)], theorems=T_C09),
     "C15": dict(runs=[FW("fwfail", judge=j_c15w), FR("frfail", judge=j_c15r)], theorems=T_C15),
     "C16": dict(runs=[FR("fr", judge=j_c16)], theorems=T("C16", "c16_writeTo", "c16_read", "c16_read_no_error", kind=_K64)),
@@ -317,7 +321,7 @@ PROPS = {
                       judge=j_notes(r"HDR-MISMATCH\S*", "header acceptance not exact", "accepted iff checksum byte right and block-size code in 4..7; distinct errors; Size unchanged"))],
                theorems=T_C19, exhaustive_thorough=True),
     "C12": dict(runs=[dict(DEC_ASM, judge=j_c12), dict(DEC_GO, judge=j_c12)], extra=[x_c12],
-                theorems=T("C04go", "c04_go_partial") + T("C03asm", "c04_asm_partial")),
+                theorems=T_C12 + T("C04go", "c04_go_partial") + T("C03asm", "c04_asm_partial")),
     "C13": dict(runs=[dict(XXH, judge=j_c13)], extra=[x_c13_4g], theorems=T("C13", "oneshot", "stream", "stream_reset")),
     "C14": dict(runs=[dict(CMP, judge=j_c14b), FW("conc", judge=j_c08, env={"VERIF_SCHED": "4"}), FW("fw", judge=j_c02w, env={"VERIF_SCHED": "5"})],
                 extra=[x_c14_groups], theorems=T_C14 + T("C08", "W.order_final")),
